@@ -394,6 +394,12 @@ def extra(repo, reg, tier, seed):
                       mode="bounded", func=f"{PARSER}.FortranFile.apply_change", witness=w, confirmed=True if w else None,
                       detail="bounded: edit/revert and twin-document histories; the proofs model lists by value, so "
                              "sharing of the line list between calls or documents is checked natively"))
+    w = _typing_histories()
+    items.append(Item("C02/session/typing_histories", "refuted" if w else "bounded-ok", "native-run(bounded)", 0.0,
+                      mode="bounded", func="fortls.parsers.internal.parser.FortranFile.apply_change", witness=w, confirmed=True if w else None,
+                      detail=f"bounded: {len(TYPED_LINES)} statements typed and deleted one keystroke at a time with incremental sync "
+                             "(declarations with kind selectors, USE with rename, CALL, labels, END, `;`, a directive): the server's "
+                             "lines equal the client model's after every keystroke"))
     w = _open_histories()
     items.append(Item("C02/session/open_close_histories", "refuted" if w else "bounded-ok", "native-run(bounded)", 0.0,
                       mode="bounded", func="fortls.langserver.LangServer.serve_onOpen", witness=w, confirmed=True if w else None,
@@ -414,6 +420,45 @@ def extra(repo, reg, tier, seed):
                       detail="axioms lines.* evaluated on the native spec function, strings up to length 6",
                       mode="bounded"))
     return items
+
+
+TYPED_LINES = ["  real(8) :: x", "  integer(kind=4), intent(in) :: i", "  type(t) :: v", "  class(c), allocatable :: o",
+               "  character(len=*), parameter :: s = 'a!b'", "  procedure(iface), pointer :: p => null()", "  real*8 w", "  use m, only: a => b",
+               "  call s(x=1, y=(/1, 2/))  ! c", "10 continue", "  end subroutine", "  if (a) then; b = 1; end if", "#define N 4"]
+
+
+def _typing_histories():
+    """A statement typed one keystroke at a time, then deleted one keystroke at a time (incremental sync): after every
+    keystroke the reparse heuristic runs the statement parsers on a half-written line; the server's text must follow."""
+    from replay.harness import Workspace, make_server
+    from fortls.jsonrpc import path_to_uri
+    disk = "subroutine s(i, s)\n  implicit none\n\nend subroutine s\n"
+    for text in TYPED_LINES:
+        ws = Workspace({"a.F90": disk})
+        try:
+            srv, rw = make_server(("--incremental_sync",))
+            srv.nthreads = 1
+            srv.handle({"jsonrpc": "2.0", "id": 0, "method": "initialize", "params": {"rootUri": path_to_uri(ws.root), "rootPath": ws.root}})
+            uri = ws.uri("a.F90")
+            srv.handle({"jsonrpc": "2.0", "method": "textDocument/didOpen", "params": {"textDocument": {"uri": uri}}})
+            client = native_lines(disk)
+            steps = [("ins", k, ch) for k, ch in enumerate(text)] + [("del", k, "") for k in range(len(text) - 1, -1, -1)]
+            for n, (op, k, ch) in enumerate(steps):
+                rng = {"start": {"line": 2, "character": k}, "end": {"line": 2, "character": k + (1 if op == "del" else 0)}}
+                change = {"range": rng, "text": ch}
+                client = native_apply(client, change)
+                rw.out.clear()
+                srv.handle({"jsonrpc": "2.0", "method": "textDocument/didChange",
+                            "params": {"textDocument": {"uri": uri}, "contentChanges": [change]}})
+                fobj = srv.workspace.get(ws.path("a.F90"))
+                got = list(fobj.contents_split) if fobj is not None else None
+                if got != client:
+                    return {"typed_line": text, "keystroke": n, "operation": op, "column": k, "character": ch,
+                            "client_line": client[2] if len(client) > 2 else None, "server_line": got[2] if got and len(got) > 2 else None,
+                            "server_messages": [str(m)[:200] for m in rw.out][:2]}
+        finally:
+            ws.close()
+    return None
 
 
 def _open_histories():
